@@ -16,10 +16,12 @@ from __future__ import annotations
 
 import itertools
 import json
+import random
 
 from automata.fa.nfa import NFA
 
 from harness import gen
+from harness import nfa_mutable as M
 from harness import nfaops_lib as L
 from harness.common import Ctx, Names, call, toks
 
@@ -39,7 +41,11 @@ RULE = ("cases = (alphabet, reference string, k, insertion, deletion, substituti
         "symbols (k ≤ 2) and bounds k ∈ {257, 258, 300} with short references: automaton compared exactly with the model, "
         "language judged by the DP on 13 deterministic neighbours of the reference (itself, one symbol dropped / added / "
         "replaced at either end and in the middle) whenever the enumeration bound is below |ref|, and on the random-edit "
-        "words; a case is non-trivial when the reference string is non-empty and 1 ≤ k and k "
+        "words; round 4: the mutable-automata option — under allow_mutable_automata=True ONE NFA per case (as returned, or its "
+        ".copy()) is asked every word up to |ref|+k+1, the neighbours of the reference, random-edit and foreign-symbol words "
+        "TWICE in shuffled orders, with 0–2 other calls in between (determinise, eliminate_lambda, reverse, A/A, == copy, "
+        "stepwise read), each answer judged by the DP; bounded-exhaustive for references ≤2 over {a,b} / {a}, k ≤ 2, 7 flag "
+        "sets; a case is non-trivial when the reference string is non-empty and 1 ≤ k and k "
         "is smaller than the reference length + 2; distinct = distinct argument tuples")
 ASSUMPTIONS = [
     "input_symbols is a set of single characters; the reference string is a str; max_edit_distance is an int",
@@ -339,6 +345,147 @@ def _check_one(ctx: Ctx, sigma, ref: str, k: int, ins: bool, dele: bool, sub: bo
 
 FLAGS = list(itertools.product([False, True], repeat=3))
 
+# ------------------------------------------------------------------ round 4: the mutable-automata option
+LIVE_MODES = ["live", "copy"]
+INTERLEAVED = {
+    # calls a user makes on the NFA between two membership queries; their results are not judged here (C07 / C08 / C09
+    # do that) — the point is that they must not change what the NFA accepts afterwards
+    "determinise": lambda R: __import__("automata.fa.dfa", fromlist=["DFA"]).DFA.from_nfa(R),
+    "eliminate_lambda": lambda R: R.eliminate_lambda(),
+    "reverse": lambda R: R.reverse(),
+    "self_quotient": lambda R: R.right_quotient(R),
+    "equals_copy": lambda R: R == R.copy(),
+    "stepwise": lambda R: list(R.read_input_stepwise("")),
+}
+
+
+def live_words(sigma, ref: str, k: int, ins: bool, dele: bool, sub: bool, order_seed: int, max_words: int):
+    """The queries of one live case, a function of the arguments and `order_seed` only: every word up to a length
+    bound, the deterministic neighbours of the reference string, words made by k−1, k, k+1 random enabled edits and
+    two words with a foreign symbol — asked in a shuffled order, then all of them AGAIN in another order."""
+    rnd = random.Random(order_seed)
+    alpha = sorted(sigma)
+    bound = min(len(ref) + k + 1, 7)
+    while bound > 1 and sum(len(alpha) ** i for i in range(bound + 1)) > max_words:
+        bound -= 1
+    ws = list(gen.words_upto(alpha, bound)) + boundary_words(ref, alpha)
+    for j in (k - 1, k, k + 1):
+        for _ in range(2):
+            w = random_edits(rnd, ref, alpha, j, ins, dele, sub) if j >= 0 else None
+            if w is not None:
+                ws.append(w)
+    foreign = foreign_for(alpha)
+    ws += [ref + foreign, foreign]
+    ws = list(dict.fromkeys(ws))
+    first, second = list(ws), list(ws)
+    rnd.shuffle(first)
+    rnd.shuffle(second)
+    return first + second, rnd
+
+
+def check_live(ctx: Ctx, sigma, ref: str, k: int, ins: bool, dele: bool, sub: bool, mode: str, order_seed: int,
+               interleave: int, origin: str, max_words: int = 130, model: bool = True):
+    """allow_mutable_automata=True: the NFA is built ONCE (mode "live": as edit_distance returns it, holding the plain
+    dicts / sets the construction made; "copy": its `.copy()` under the option, which shares every container with the
+    original) and asked SEVERAL membership questions; `interleave` other calls are made on it in between.  Every
+    answer is judged by the alignment DP on the ARGUMENTS — an answer must not depend on the queries made before.
+    Arguments are valid ones (k ≥ 0, some kind enabled, reference over the alphabet)."""
+    step = dict(kind="mutable_option", input_symbols=sorted(sigma), reference_str=ref, max_edit_distance=k, insertion=ins,
+                deletion=dele, substitution=sub, mode=mode, order_seed=order_seed, interleave=interleave, max_words=max_words)
+    CALLS.append(step)
+    n_before = len(ctx.prop_fails)
+    try:
+        _check_live(ctx, step, sigma, ref, k, ins, dele, sub, mode, order_seed, interleave, origin, max_words, model)
+    finally:
+        for f in ctx.prop_fails[n_before:]:
+            f["_calls"] = len(CALLS)
+            f["_tail"] = [dict(step)]
+
+
+def _check_live(ctx, step, sigma, ref, k, ins, dele, sub, mode, order_seed, interleave, origin, max_words, model):
+    sy = Names(sorted(set(sigma) | set(ref)))
+    what = (f"under allow_mutable_automata=True ({mode}), edit_distance({sorted(sigma)!r}, {shown(ref)}, k={k}, ins={ins}, "
+            f"del={dele}, sub={sub})")
+    keep = []
+    with M.mutable_option():
+        res = call(lambda: NFA.edit_distance(set(sigma), ref, k, insertion=ins, deletion=dele, substitution=sub))
+        ctx.stat(origin)
+        ctx.stat(f"mutable_option_{mode}")
+        if res[0] == "err":
+            ctx.case(None)
+            ctx.prop_fail(f"{what} raised {res[1]} on valid arguments", dict(step, failure=res[1]), None)
+            return
+        R = res[1]
+        if model:
+            order = [sy(a) for a in set(sigma)]
+            line = ctx.driver("drv_nfa_ops").ask(
+                toks("EDIT", len(order), order, len(ref), [sy(c) for c in ref], k, ins, dele, sub))
+            mod = L.parse_res_nfag(line)
+            impl = ("ok", L.plain(R, sy, lambda q: tuple(q) if isinstance(q, tuple) else ("?", repr(q))))
+            if impl != mod:
+                ctx.corr_diff("EDIT (allow_mutable_automata=True)", step, repr(impl)[:1500], repr(mod)[:1500])
+        if mode == "copy":
+            keep.append(R)
+            c = call(R.copy)
+            if c[0] == "err":
+                ctx.case(None)
+                ctx.prop_fail(f"{what}: .copy() raised {c[1]}", dict(step, failure=c[1]), None)
+                return
+            R = c[1]
+        queries, rnd = live_words(sigma, ref, k, ins, dele, sub, order_seed, max_words)
+        small = (len(ref) + 1) * (k + 1) <= 24
+        names = sorted(INTERLEAVED) if small else ["stepwise", "equals_copy"]
+        at = {rnd.randrange(len(queries)): rnd.choice(names) for _ in range(interleave)}
+        ok = True
+        for i, w in enumerate(queries):
+            if i in at:
+                ctx.stat("mutable_option_interleaved_" + at[i])
+                call(lambda: INTERLEAVED[at[i]](R))          # result judged elsewhere; must leave R's language alone
+            exp = set(w) <= set(sigma) and dp_within(ref, w, k, ins, dele, sub)
+            got = call(lambda: R.accepts_input(w))
+            ctx.stat("mutable_option_query")
+            if got != ("ok", exp):
+                ok = False
+                before = [f"{n} before query {j + 1}" for j, n in sorted(at.items()) if j <= i]
+                ctx.prop_fail(f"{what}: query {i + 1} of {len(queries)} on the same NFA"
+                              + (f" (other calls on it: {', '.join(before)})" if before else "")
+                              + f": accepts_input({shown(w)}) is {got[1] if got[0] == 'ok' else 'raised ' + got[1]}, but the word is "
+                              f"{'within' if exp else 'not within'} {k} enabled edits of the reference string (alignment DP)",
+                              dict(step, failure="language-live", word=w, query=i + 1, expected=exp), None)
+                break
+        if ok and call(R.validate)[0] == "err":
+            ok = False
+            ctx.prop_fail(f"{what}: the NFA no longer validates after {len(queries)} queries", dict(step, failure="invalid"), None)
+        nontrivial = len(ref) >= 1 and 1 <= k < len(ref) + 2
+        ctx.case(("live", tuple(sorted(sigma)), ref, k, ins, dele, sub, mode) if ok and nontrivial else None)
+        del keep
+
+
+def mutable_option_family(ctx: Ctx):
+    """Bounded-exhaustive part: every reference string of length ≤2 over {a,b} and over {a}, k ∈ {0,1,2}, the 7 admissible
+    flag sets, live object, every word up to |ref|+k+1 (+ neighbours, random edits, foreign symbols) asked twice in
+    shuffled orders.  Random part: alphabets of 1–3 symbols, references ≤5, k ≤ 3, live object or its copy, 0–2 other
+    calls (determinise, eliminate_lambda, reverse, A/A, == copy, stepwise read) between the queries."""
+    rng = ctx.rng
+    for alpha, maxlen in ((("a", "b"), 2), (("a",), 2)):
+        for n in range(maxlen + 1):
+            for ref in map("".join, itertools.product(alpha, repeat=n)):
+                for k in (0, 1, 2):
+                    for fl in FLAGS[1:]:
+                        check_live(ctx, alpha, ref, k, *fl, mode="live", order_seed=rng.randrange(10 ** 6), interleave=0,
+                                   origin="mutable_option_exhaustive")
+    ctx.exhaustive("allow_mutable_automata=True: every reference string of length ≤2 over {a,b} and over {a}, k ∈ {0,1,2}, "
+                   "7 flag sets; ONE NFA per case, every word up to length |ref|+k+1 asked twice in shuffled orders, each "
+                   "answer judged by the DP")
+    for _ in range(ctx.budget(150, 1500)):
+        alpha = list(rng.choice([("a", "b"), ("a",), ("a", "b", "c"), ("0", "1"), (".", "a")]))
+        n = rng.randint(0, 5)
+        ref = rng.choice(alpha) * n if rng.random() < 0.25 else "".join(rng.choice(alpha) for _ in range(n))
+        k = rng.choice([0, 1, 1, 2, 2, 3])
+        check_live(ctx, alpha, ref, k, *rng.choice(FLAGS[1:]), mode=rng.choice(LIVE_MODES), order_seed=rng.randrange(10 ** 6),
+                   interleave=rng.choice([0, 1, 2]), origin="mutable_option", max_words=100)
+
+
 
 def probe_empty_symbol(ctx: Ctx):
     """ASSUMPTION 'no "" in input_symbols': refused by the NFA constructor since /repo 07f4843."""
@@ -360,6 +507,12 @@ def judge_program_json(text: str):
     out = []
     for i, c in enumerate(json.loads(text)):
         n = len(ctx.prop_fails)
+        if c.get("kind") == "mutable_option":
+            check_live(ctx, c["input_symbols"], c["reference_str"], c["max_edit_distance"], c["insertion"], c["deletion"],
+                       c["substitution"], c["mode"], c["order_seed"], c["interleave"], origin="replay",
+                       max_words=c.get("max_words", 130), model=False)
+            out += [(i, f["what"]) for f in ctx.prop_fails[n:]]
+            continue
         check_one(ctx, c["input_symbols"], c["reference_str"], c["max_edit_distance"], c["insertion"], c["deletion"],
                   c["substitution"], origin="replay", model=False, extra_words=[c["word"]] if "word" in c else ())
         out += [(i, f["what"]) for f in ctx.prop_fails[n:]]
@@ -410,6 +563,8 @@ def run_families(ctx: Ctx):
     # 1b. round 3: special characters as ordinary symbols; references / bounds beyond 256
     special_symbol_families(ctx)
     long_families(ctx)
+    # 1c. round 4: the mutable-automata option — several queries (and other calls) on ONE NFA
+    mutable_option_family(ctx)
     # 2. shaped random
     for _ in range(ctx.budget(1500, 12000)):
         alpha = list(rng.choice([("a", "b"), ("a",), ("a", "b", "c"), ("0", "1"), ("x", "y", "z", "w"), ("b", "a", "é")]))
@@ -505,6 +660,10 @@ def replay(ctx: Ctx, path: str) -> int:
     if rp.get("kind") == "sequence":
         for i, what in judge_program_json(json.dumps(rp["cases"])):
             ctx.prop_fail(f"call {i + 1} of {len(rp['cases'])}: {what}", rp, None)
+    elif rp.get("kind") == "mutable_option":
+        check_live(ctx, rp["input_symbols"], rp["reference_str"], rp["max_edit_distance"], rp["insertion"], rp["deletion"],
+                   rp["substitution"], rp["mode"], rp["order_seed"], rp["interleave"], origin="replay",
+                   max_words=rp.get("max_words", 130))
     else:
         check_one(ctx, rp["input_symbols"], rp["reference_str"], rp["max_edit_distance"], rp["insertion"],
                   rp["deletion"], rp["substitution"], origin="replay", extra_words=[rp["word"]] if "word" in rp else ())
